@@ -10,7 +10,7 @@
    No bound on the number of peers, sessions, operations or on the times.
    Statements only; proofs in Sessions/SessionsProofs.v and Mem/AllocTraceProofs.v. *)
 From LibcoapV Require Import Base.Tactics Sessions.Sessions Sessions.SessionsProofs
-  Mem.AllocTrace Mem.AllocTraceProofs.
+  Sessions.Client Sessions.ClientProofs Mem.AllocTrace Mem.AllocTraceProofs.
 Local Open Scope Z_scope.
 
 (* Same peer -> same live session; different peers -> different sessions.
@@ -182,6 +182,78 @@ Theorem C12_example_history :
   end.
 Proof. exact se_example_run. Qed.
 Print Assumptions C12_example_history.
+
+(* ---------------------------------------------------------------- client sessions
+   (Sessions/Client.v: created with one reference owned by the application, no idle state) *)
+
+(* ref = number of holders, and a client session that exists is referenced *)
+Theorem C12_client_ref_counts_holders : forall ops st s,
+  sec_run sec_init ops = Some st -> In s (ct_tbl st) ->
+  cs_ref s = Z.of_nat (length (cs_holders s)) /\ 1 <= cs_ref s.
+Proof. exact sec_ref_counts_holders. Qed.
+Print Assumptions C12_client_ref_counts_holders.
+
+(* a client session is released only when its last holder (application, queued message) lets go,
+   or by coap_free_context when the application holds at most the one reference the context
+   consumes: never while something still refers to it *)
+Theorem C12_client_free_rule : forall ops st op sid,
+  sec_run sec_init ops = Some st -> sec_op_ok st op = true ->
+  In (CFree sid) (sec_new_events st op) ->
+  exists s, In s (ct_tbl st) /\ cs_id s = sid /\
+    match op with
+    | COpRem sid' h => sid' = sid /\ cs_holders s = [h]
+    | COpFreeContext => (length (sec_keep_app s) <= 1)%nat
+    | _ => False
+    end.
+Proof. exact sec_free_rule. Qed.
+Print Assumptions C12_client_free_rule.
+
+(* ... and it is released at once when that happens (freed at 0), otherwise it stays *)
+Theorem C12_client_freed_at_zero : forall st sid h s,
+  sec_get sid (ct_tbl st) = Some s -> cs_ref s = Z.of_nat (length (cs_holders s)) ->
+  NoDup (map cs_id (ct_tbl st)) ->
+  (cs_holders s = [h] ->
+     sec_new_events st (COpRem sid h) = [CFree sid] /\
+     forall s', In s' (ct_tbl (sec_step st (COpRem sid h))) -> cs_id s' <> sid) /\
+  (se_has h (cs_holders s) = true -> (2 <= length (cs_holders s))%nat ->
+     sec_new_events st (COpRem sid h) = [] /\
+     exists s', In s' (ct_tbl (sec_step st (COpRem sid h))) /\ cs_id s' = sid /\
+                cs_ref s' = cs_ref s - 1).
+Proof. exact sec_freed_at_zero. Qed.
+Print Assumptions C12_client_freed_at_zero.
+
+(* every client session is created once and released at most once, after its creation *)
+Theorem C12_client_log_bracketed : forall ops st,
+  sec_run sec_init ops = Some st ->
+  NoDup (sec_news (ct_log st)) /\ NoDup (sec_frees (ct_log st)) /\
+  (forall sid, In (CFree sid) (ct_log st) -> In (CNew sid) (ct_log st)).
+Proof. exact sec_log_bracketed. Qed.
+Print Assumptions C12_client_log_bracketed.
+
+(* coap_free_context: nothing stays in the context; left behind are only sessions on which the
+   application holds two or more references; otherwise every session ever created is released *)
+Theorem C12_client_teardown_empty : forall ops st,
+  sec_run sec_init ops = Some st -> sec_op_ok st COpFreeContext = true ->
+  let st' := sec_step st COpFreeContext in
+  ct_tbl st' = [] /\ ct_alive st' = false /\
+  (forall s, In s (ct_left st') ->
+     exists s0, In s0 (ct_tbl st) /\ cs_id s0 = cs_id s /\ (2 <= length (sec_keep_app s0))%nat) /\
+  ((forall s, In s (ct_tbl st) -> (length (sec_keep_app s) <= 1)%nat) ->
+     ct_left st' = [] /\
+     forall sid, In (CNew sid) (ct_log st') -> In (CFree sid) (ct_log st')).
+Proof. exact sec_teardown_empty. Qed.
+Print Assumptions C12_client_teardown_empty.
+
+(* non-vacuity: a request in flight while the application lets go; teardown consumes the
+   application's one reference *)
+Theorem C12_client_example :
+  match sec_run sec_init [COpNew; COpNew; COpAdd 1 se_h_lib; COpRem 1 se_h_app; COpAdd 2 se_h_app;
+                          COpRem 1 se_h_lib; COpNew; COpRem 2 se_h_app; COpFreeContext] with
+  | Some st => ct_log st = [CNew 1; CNew 2; CFree 1; CNew 3; CFree 2; CFree 3] /\ ct_left st = []
+  | None => False
+  end.
+Proof. exact sec_example_run. Qed.
+Print Assumptions C12_client_example.
 
 (* The allocation-trace oracle decides balancedness: every allocated block released exactly
    once, nothing released twice or without having been allocated, nothing left. *)
